@@ -149,6 +149,13 @@ func c06Specials() []*gen.Expr {
 		gen.Func("max_by", gen.Field("mixed"), k),
 		gen.Func("min_by", gen.Field("mixed"), k),
 		gen.Func("sort_by", gen.Func("sort_by", gen.Field("ao"), n), s),
+		// a by-function inside the key expression of a by-function (whatever the outer call keeps per call must
+		// survive the inner one)
+		gen.Chain(gen.Func("sort_by", gen.Chain(gen.Field("ao"), gen.StFilter(gen.Field("an"))), gen.ExpRef(gen.Chain(gen.Func("sort_by", gen.Field("an"), gen.ExpRef(gen.Current())), gen.StIndex(-1)))), gen.StListStar(), gen.StField("s")),
+		gen.Chain(gen.Func("sort_by", gen.Chain(gen.Field("ao"), gen.StFilter(gen.Field("an"))), gen.ExpRef(gen.Func("max_by", gen.Field("an"), gen.ExpRef(gen.Current())))), gen.StListStar(), gen.StField("s")),
+		gen.Func("map", gen.ExpRef(gen.Func("map", gen.ExpRef(gen.Func("abs", gen.Current())), gen.Field("an"))), gen.Field("ao")),
+		gen.Chain(gen.Func("max_by", gen.Field("ao"), gen.ExpRef(gen.Func("length", gen.Func("sort_by", gen.Field("an"), gen.ExpRef(gen.Current()))))), gen.StField("s")),
+		gen.Chain(gen.Func("sort_by", gen.Field("ao"), gen.ExpRef(gen.Func("sum", gen.Func("map", gen.ExpRef(gen.Func("abs", gen.Current())), gen.Field("an"))))), gen.StListStar(), gen.StField("s")),
 		gen.Func("sort_by", gen.Field("ao"), gen.ExpRef(gen.Func("sum", gen.Func("sort", gen.Field("an"))))),
 		gen.Func("reverse", gen.Func("sort", gen.Field("an"))),
 		gen.Func("sort", gen.Func("reverse", gen.Field("as"))),
